@@ -128,10 +128,10 @@ func buildMsg(f *fe.Fixture, rng *rand.Rand, class string) (ar *pb.ActionResult,
 		ar.StderrDigest = &pb.Digest{Hash: good.Hash, SizeBytes: -5}
 	case "inlineFileWrongDigest":
 		c := blob()
-		ar.OutputFiles = append(ar.OutputFiles, &pb.OutputFile{Path: "bazel-out/lying", Digest: dg(append([]byte("x"), c...)), Contents: c})
+		ar.OutputFiles = append(ar.OutputFiles, &pb.OutputFile{Path: "bazel-out/lying", Digest: lyingDigest(rng, c), Contents: c})
 	case "inlineStdoutWrongDigest":
 		c := blob()
-		ar.StdoutRaw, ar.StdoutDigest = c, dg(append([]byte("y"), c...))
+		ar.StdoutRaw, ar.StdoutDigest = c, lyingDigest(rng, c)
 	case "notAnActionResult":
 		raw = []byte{0xff, 0xff, 0xff, 0xff, 0x0f, 0x01, 0x02}
 	default:
@@ -318,4 +318,22 @@ func RunACHists(hists []ACHist, seed int64, mode string, stride int) (runs []ACH
 		runs = append(runs, run)
 	}
 	return runs, viols, nil
+}
+
+// lyingDigest is a digest that does not describe c: another blob's digest, the right size with a wrong
+// hash, or the right hash with a wrong size.
+func lyingDigest(rng *rand.Rand, c []byte) *pb.Digest {
+	d := drv.MkBlob(c)
+	switch rng.Intn(4) {
+	case 0:
+		o := drv.MkBlob(append([]byte("x"), c...))
+		return &pb.Digest{Hash: o.Hash, SizeBytes: int64(len(c) + 1)}
+	case 1:
+		o := drv.MkBlob(append([]byte("x"), c...))
+		return &pb.Digest{Hash: o.Hash, SizeBytes: int64(len(c))}
+	case 2:
+		return &pb.Digest{Hash: d.Hash, SizeBytes: int64(len(c)) + 1 + int64(rng.Intn(7))}
+	default:
+		return &pb.Digest{Hash: d.Hash, SizeBytes: int64(len(c)) - 1}
+	}
 }
